@@ -48,11 +48,14 @@ fn kind_of(fd: &FontData<'_>) -> &'static str {
     }
 }
 
+/// MC_Sfnt!FarIdx as usize values: member indices far beyond every collection (the names are the specification's).
+const FAR_IDX: [usize; 8] = [1 << 16, 1 << 31, 1 << 32, (1 << 32) + 1, 1 << 62, (1 << 62) + 1, 1 << 63, usize::MAX];
+
 /// Observation of a whole container in the vocabulary of MC_Sfnt!Expect.
 fn observe(bytes: &[u8], n_members: usize, qtags: &[u32]) -> Value {
     let fd = match ReadScope::new(bytes).read::<FontData<'_>>() {
         Ok(fd) => fd,
-        Err(_) => return json!({"load": false, "kind": "", "members": []}),
+        Err(_) => return json!({"load": false, "kind": "", "members": [], "far": []}),
     };
     let mut members = Vec::new();
     for i in 0..n_members {
@@ -75,7 +78,8 @@ fn observe(bytes: &[u8], n_members: usize, qtags: &[u32]) -> Value {
             }
         }
     }
-    json!({"load": true, "kind": kind_of(&fd), "members": members})
+    let far: Vec<bool> = FAR_IDX.iter().map(|&i| fd.table_provider(i).is_ok()).collect();
+    json!({"load": true, "kind": kind_of(&fd), "members": members, "far": far})
 }
 
 /// What one provider answers, in the vocabulary of MC_Sfnt!MemberObs. `data` decides how the table bytes are asked for.
@@ -115,14 +119,15 @@ fn observe_direct(bytes: &[u8], n_members: usize, qtags: &[u32]) -> Value {
     if bytes.len() >= 4 && &bytes[0..4] == b"wOFF" {
         let w = match ReadScope::new(bytes).read::<WoffFont<'_>>() {
             Ok(w) => w,
-            Err(_) => return json!({"load": false, "kind": "", "members": []}),
+            Err(_) => return json!({"load": false, "kind": "", "members": [], "far": []}),
         };
         let members: Vec<Value> = (0..n_members).map(|i| member_obs(i, &w, qtags, &|t| via_rtd(&w, t))).collect();
-        return json!({"load": true, "kind": "woff", "members": members});
+        // WoffFont is its own provider: there is no index to consult
+        return json!({"load": true, "kind": "woff", "members": members, "far": vec![true; FAR_IDX.len()]});
     }
     let f = match ReadScope::new(bytes).read::<OpenTypeFont<'_>>() {
         Ok(f) => f,
-        Err(_) => return json!({"load": false, "kind": "", "members": []}),
+        Err(_) => return json!({"load": false, "kind": "", "members": [], "far": []}),
     };
     let kind = match f.data {
         OpenTypeData::Single(_) => "sfnt",
@@ -134,7 +139,8 @@ fn observe_direct(bytes: &[u8], n_members: usize, qtags: &[u32]) -> Value {
             Ok(p) => member_obs(i, &p, qtags, &|t| via_rtd(&p, t)),
         })
         .collect();
-    json!({"load": true, "kind": kind, "members": members})
+    let far: Vec<bool> = FAR_IDX.iter().map(|&i| f.table_provider(i).is_ok()).collect();
+    json!({"load": true, "kind": kind, "members": members, "far": far})
 }
 
 /// The anchors' own grain: OpenTypeFont::offset_table(i) -> OffsetTable::find_table_record / read_table on the file
@@ -143,7 +149,7 @@ fn observe_records(bytes: &[u8], n_members: usize, qtags: &[u32]) -> Value {
     if bytes.len() >= 4 && &bytes[0..4] == b"wOFF" {
         let w = match ReadScope::new(bytes).read::<WoffFont<'_>>() {
             Ok(w) => w,
-            Err(_) => return json!({"load": false, "kind": "", "members": []}),
+            Err(_) => return json!({"load": false, "kind": "", "members": [], "far": []}),
         };
         let tags: Vec<Vec<u8>> = w.table_directory.iter().map(|e| b4(e.tag)).collect();
         let mut data = Vec::new();
@@ -162,11 +168,11 @@ fn observe_records(bytes: &[u8], n_members: usize, qtags: &[u32]) -> Value {
         let members: Vec<Value> = (0..n_members)
             .map(|i| json!({"i": i, "ok": true, "flavor": b4(w.flavor()), "tags": tags, "data": data, "has": has}))
             .collect();
-        return json!({"load": true, "kind": "woff", "members": members});
+        return json!({"load": true, "kind": "woff", "members": members, "far": vec![true; FAR_IDX.len()]});
     }
     let f = match ReadScope::new(bytes).read::<OpenTypeFont<'_>>() {
         Ok(f) => f,
-        Err(_) => return json!({"load": false, "kind": "", "members": []}),
+        Err(_) => return json!({"load": false, "kind": "", "members": [], "far": []}),
     };
     let kind = match f.data {
         OpenTypeData::Single(_) => "sfnt",
@@ -194,7 +200,8 @@ fn observe_records(bytes: &[u8], n_members: usize, qtags: &[u32]) -> Value {
         }
         members.push(json!({"i": i, "ok": true, "flavor": b4(ot.sfnt_version), "tags": tags, "data": data, "has": has}));
     }
-    json!({"load": true, "kind": kind, "members": members})
+    let far: Vec<bool> = FAR_IDX.iter().map(|&i| f.offset_table(i).is_ok()).collect();
+    json!({"load": true, "kind": kind, "members": members, "far": far})
 }
 
 fn replay(cases: &str, out: &str) {
@@ -229,7 +236,7 @@ fn replay(cases: &str, out: &str) {
                 Outcome::Panicked(m) => json!({"panic": m}),
             };
             // when loading fails the specification lists no members
-            let got = if got["load"] == json!(false) { json!({"load": false, "kind": "", "members": []}) } else { got };
+            let got = if got["load"] == json!(false) { json!({"load": false, "kind": "", "members": [], "far": []}) } else { got };
             n_queries += n_members * (qtags.len() * 2 + 2);
             if got != case["exp"] {
                 w.write(&json!({"case": ci, "route": route, "kind": case["kind"], "damage": case["damage"], "variant": variant,
